@@ -355,6 +355,35 @@ def run(prop, tier, seed, t0):
                 diff = next(((x, y) for x, y in zip(la, lb) if x != y), (len(la), len(lb)))
                 violation("C19/results-depend-on-other-features/%s" % f, {"feature": f, "variant": vname(v)},
                           "minimal: %s | full: %s" % diff, "byte-identical corpus output in the minimal and in the full configuration", "corpus %s" % f)
+    # std and serde are "additional features" too: the full corpus must not change with them (fpdec changes the amount
+    # type by design and is compared within itself)
+    for v in backends:
+        wd = os.path.join(BUILD, "gen", "c19-corpus-" + vname(v))
+        ref_bin = os.path.join(wd, "corpus_full")
+        if not os.path.exists(ref_bin):
+            continue
+        ref = subprocess.run([ref_bin] + qf, stdout=subprocess.PIPE, stderr=subprocess.PIPE)
+        for other in VARIANTS:
+            if other == v or other[1] != v[1]:
+                continue
+            ok, rlib, deps, log = build_config(all_set, other)
+            if not ok:
+                continue
+            wdo = os.path.join(BUILD, "gen", "c19-corpus-" + vname(other))
+            okb, blog = rustc_probe(corpus, rlib, deps, wdo, "corpus_variant", as_bin=True, cfgs=['feature="%s"' % f for f in qf])
+            if not okb:
+                violation("C19/corpus-does-not-compile/%s" % vname(other), {"variant": vname(other)}, blog[-500:], "the corpus compiles in every variant", "rustc corpus")
+                continue
+            got = subprocess.run([os.path.join(wdo, "corpus_variant")] + qf, stdout=subprocess.PIPE, stderr=subprocess.PIPE)
+            stats["variant_corpus_runs"] = stats.get("variant_corpus_runs", 0) + 1
+            if got.returncode == 0 and ref.returncode == 0 and got.stdout == ref.stdout and got.stdout:
+                stats["variant_corpus_identical"] = stats.get("variant_corpus_identical", 0) + 1
+            else:
+                la, lb = ref.stdout.decode("utf-8", "replace").splitlines(), got.stdout.decode("utf-8", "replace").splitlines()
+                diff = next(((x, y) for x, y in zip(la, lb) if x != y), (len(la), len(lb)))
+                violation("C19/results-depend-on-other-features/%s-vs-%s" % (vname(v), vname(other)), {"variant": vname(other), "features": sorted(all_set)},
+                          "%s: %s | %s: %s" % (vname(v), diff[0], vname(other), diff[1]),
+                          "byte-identical corpus output whether or not std / serde are enabled", "corpus all")
     if not violations and (stats["configurations"] < (40 if tier == "quick" else 1000) or stats["corpus_runs"] < 14):
         raise Machinery("vacuity guard: C19 explored too little: %s" % stats)
     coverage = {
@@ -365,7 +394,7 @@ def run(prop, tier, seed, t0):
                 "computed by the model) is compiled against the library that build produced; a fixed operation corpus "
                 "(all unit pairs x 4 amounts: conversion, Display, ==, partial_cmp, + - /, every derived operator, the "
                 "temperature table) is run per feature in its minimal configuration and in the full one and compared byte "
-                "for byte (%s)" % (lattice, "f64 and fpdec" if tier == "thorough" else "f64"),
+                "for byte (%s); the full corpus is also compared across the std / no-std and serde / no-serde variants" % (lattice, "f64 and fpdec" if tier == "thorough" else "f64"),
         "states": stats["configurations"], "transitions": stats["configurations"] + stats["probes_ok"] + 2 * stats["corpus_runs"],
         "traces_validated_against_impl": stats["configurations"],
         "evaluations": stats["configurations"], "distinct_nontrivial": stats["builds_ok"],
